@@ -57,8 +57,8 @@ func suiteSizing(c *Ctx) {
 			c.op("dims.cuckoo.redis")
 		}
 	}
-	for _, e := range []float64{0.9, 0.5, 0.1, 0.01, 0.001, 0.0003} {
-		for _, d := range []float64{0.9, 0.5, 0.1, 0.01, 0.001} {
+	for _, e := range []float64{0.9, 0.5, 0.1, 0.01, 0.001, 0.0003, 0.00005, 0.00001, 0.9999, 0.99999} {
+		for _, d := range []float64{0.9, 0.5, 0.1, 0.01, 0.001, 0.00001, 1e-9, 0.99999} {
 			s, err := gostatix.NewCountMinSketchFromEstimates(e, d)
 			if err != nil {
 				continue
